@@ -40,7 +40,7 @@ var baselineFuncs = func() map[string]string {
 		if l = strings.TrimSpace(l); l == "" || strings.HasPrefix(l, "#") {
 			continue
 		}
-		if strings.HasPrefix(l, "type:") {
+		if strings.HasPrefix(l, "type:") || strings.HasPrefix(l, "call:") || strings.HasPrefix(l, "closure:") {
 			continue
 		}
 		parts := strings.SplitN(l, "\t", 2)
@@ -59,6 +59,28 @@ var baselineTypes = func() map[string]bool {
 	for _, l := range strings.Split(baselineFuncsTxt, "\n") {
 		if l = strings.TrimSpace(l); strings.HasPrefix(l, "type:") {
 			m[strings.SplitN(strings.TrimPrefix(l, "type:"), "\t", 2)[0]] = true
+		}
+	}
+	return m
+}()
+
+// baselineClosures: "function\tvariable" for every local closure variable of the pinned commit (part of the reference).
+var baselineClosures = func() map[string]bool {
+	m := map[string]bool{}
+	for _, l := range strings.Split(baselineFuncsTxt, "\n") {
+		if l = strings.TrimSpace(l); strings.HasPrefix(l, "closure:") {
+			m[strings.TrimPrefix(l, "closure:")] = true
+		}
+	}
+	return m
+}()
+
+// baselineCalls: "caller\tcallee" for every static reference from one library function to another at the pinned commit.
+var baselineCalls = func() map[string]bool {
+	m := map[string]bool{}
+	for _, l := range strings.Split(baselineFuncsTxt, "\n") {
+		if l = strings.TrimSpace(l); strings.HasPrefix(l, "call:") {
+			m[strings.TrimPrefix(l, "call:")] = true
 		}
 	}
 	return m
@@ -689,6 +711,11 @@ func (in *inliner) inlineCall(p *packages.Package, file *ast.File, stack []ast.N
 		return textEdit{}, nil, why
 	}
 
+	if !isGoDefer {
+		if ed, ok := in.exprForm(p, stack, stmt, call, c, recvExpr); ok {
+			return ed, stmt, ""
+		}
+	}
 	if isGoDefer {
 		bodyText, _, why := in.bodyText(c, id, nil)
 		if why != "" {
@@ -1073,6 +1100,236 @@ func (in *inliner) inlineCall(p *packages.Package, file *ast.File, stack []ast.N
 	_, a := in.rawOff(replaced.Pos())
 	_, b := in.rawOff(replaced.End())
 	return textEdit{a, b, text + in.dir(replaced.End())}, stmtOf(replaced), ""
+}
+
+// accessorCand: the declaration of a reference function in package p, as a candidate for the expression form only.
+func (in *inliner) accessorCand(p *packages.Package, f *types.Func) *inlCand {
+	for _, file := range p.Syntax {
+		for _, d := range file.Decls {
+			fd, ok := d.(*ast.FuncDecl)
+			if !ok || fd.Body == nil || p.TypesInfo.Defs[fd.Name] != types.Object(f) || fd.Type.TypeParams != nil {
+				continue
+			}
+			if len(fd.Body.List) != 1 {
+				return nil
+			}
+			if _, ok := fd.Body.List[0].(*ast.ReturnStmt); !ok {
+				return nil
+			}
+			return &inlCand{obj: f, sig: f.Type().(*types.Signature), fd: fd, pkg: p, file: file, callsCand: map[*types.Func]bool{}}
+		}
+	}
+	return nil
+}
+
+// recvText: the receiver expression of a method call, adjusted to the receiver's declared form ("" for functions).
+func (in *inliner) recvText(p *packages.Package, call *ast.CallExpr, f *types.Func) (string, bool) {
+	sig := f.Type().(*types.Signature)
+	if sig.Recv() == nil {
+		_, ok := call.Fun.(*ast.Ident)
+		return "", ok
+	}
+	sel, ok := call.Fun.(*ast.SelectorExpr)
+	if !ok {
+		return "", false
+	}
+	si := p.TypesInfo.Selections[sel]
+	if si == nil || len(si.Index()) != 1 || si.Kind() != types.MethodVal {
+		return "", false
+	}
+	xt := p.TypesInfo.TypeOf(sel.X)
+	_, recvPtr := sig.Recv().Type().(*types.Pointer)
+	_, xPtr := xt.Underlying().(*types.Pointer)
+	xs := in.nodeText(sel.X)
+	switch {
+	case recvPtr && !xPtr:
+		return "&(" + xs + ")", true
+	case !recvPtr && xPtr:
+		return "*(" + xs + ")", true
+	}
+	return xs, true
+}
+
+// exprForm: a helper whose body is a single `return E` (an accessor, a predicate, a small computation) is replaced
+// by E itself, with the parameters replaced by the arguments. It applies when that cannot change what is evaluated or
+// in which order: E holds no function literal; every argument (and the receiver) is either simple - identifiers,
+// field selections, literals, &x, *x - or used exactly once by an E that makes no calls; no argument with a possible
+// side effect is dropped; argument and parameter types are identical (no implicit conversion is lost).
+func (in *inliner) exprForm(p *packages.Package, stack []ast.Node, stmt ast.Stmt, call *ast.CallExpr, c *inlCand, recvExpr string) (textEdit, bool) {
+	info := p.TypesInfo
+	cinfo := c.pkg.TypesInfo
+	if c.lit != nil || c.fd.Body == nil || len(c.fd.Body.List) != 1 {
+		return textEdit{}, false
+	}
+	ret, ok := c.fd.Body.List[0].(*ast.ReturnStmt)
+	if !ok || len(ret.Results) != 1 {
+		return textEdit{}, false
+	}
+	sig := c.sig
+	if sig.Results().Len() != 1 || sig.Variadic() || call.Ellipsis.IsValid() {
+		return textEdit{}, false
+	}
+	E := ret.Results[0]
+	pure := true
+	hasLit := false
+	ast.Inspect(E, func(n ast.Node) bool {
+		switch x := n.(type) {
+		case *ast.FuncLit:
+			hasLit = true
+		case *ast.CallExpr:
+			isConv := false
+			if tv, ok := cinfo.Types[x.Fun]; ok && tv.IsType() {
+				isConv = true
+			}
+			if id, ok := x.Fun.(*ast.Ident); ok {
+				if b, ok := cinfo.Uses[id].(*types.Builtin); ok && (b.Name() == "len" || b.Name() == "cap") {
+					isConv = true
+				}
+			}
+			if !isConv {
+				pure = false
+			}
+		case *ast.UnaryExpr:
+			if x.Op == token.ARROW {
+				pure = false
+			}
+		}
+		return true
+	})
+	if hasLit {
+		return textEdit{}, false
+	}
+	// parameters (receiver first) and their arguments
+	type par struct {
+		obj  *types.Var
+		text string
+		expr ast.Expr
+	}
+	var pars []par
+	if sig.Recv() != nil {
+		if c.fd.Recv == nil || len(c.fd.Recv.List) != 1 {
+			return textEdit{}, false
+		}
+		var ro *types.Var
+		if len(c.fd.Recv.List[0].Names) == 1 {
+			ro, _ = cinfo.Defs[c.fd.Recv.List[0].Names[0]].(*types.Var)
+		}
+		sel := call.Fun.(*ast.SelectorExpr)
+		pars = append(pars, par{ro, recvExpr, sel.X})
+	}
+	i := 0
+	if c.fd.Type.Params != nil {
+		for _, fld := range c.fd.Type.Params.List {
+			names := fld.Names
+			if len(names) == 0 {
+				names = []*ast.Ident{nil}
+			}
+			for _, nm := range names {
+				if i >= len(call.Args) {
+					return textEdit{}, false
+				}
+				var po *types.Var
+				if nm != nil {
+					po, _ = cinfo.Defs[nm].(*types.Var)
+				}
+				// no implicit conversion may be lost
+				at := info.TypeOf(call.Args[i])
+				if at == nil || !types.Identical(at, sig.Params().At(i).Type()) {
+					return textEdit{}, false
+				}
+				pars = append(pars, par{po, in.nodeText(call.Args[i]), call.Args[i]})
+				i++
+			}
+		}
+	}
+	if i != len(call.Args) {
+		return textEdit{}, false
+	}
+	var simple func(e ast.Expr) bool
+	simple = func(e ast.Expr) bool {
+		switch x := e.(type) {
+		case *ast.Ident, *ast.BasicLit:
+			return true
+		case *ast.ParenExpr:
+			return simple(x.X)
+		case *ast.SelectorExpr:
+			return simple(x.X)
+		case *ast.StarExpr:
+			return simple(x.X)
+		case *ast.UnaryExpr:
+			return (x.Op == token.AND || x.Op == token.SUB || x.Op == token.NOT) && simple(x.X)
+		}
+		return false
+	}
+	// uses of each parameter inside E
+	type use struct {
+		a, b int
+		par  int
+	}
+	var uses []use
+	count := make([]int, len(pars))
+	ast.Inspect(E, func(n ast.Node) bool {
+		id, ok := n.(*ast.Ident)
+		if !ok {
+			return true
+		}
+		o := cinfo.Uses[id]
+		for k, pr := range pars {
+			if pr.obj != nil && o == types.Object(pr.obj) {
+				_, a := in.rawOff(id.Pos())
+				_, b := in.rawOff(id.End())
+				uses = append(uses, use{a, b, k})
+				count[k]++
+			}
+		}
+		return true
+	})
+	for k, pr := range pars {
+		if simple(pr.expr) {
+			continue
+		}
+		if count[k] == 1 && pure {
+			continue
+		}
+		return textEdit{}, false
+	}
+	cf, ea := in.rawOff(E.Pos())
+	_, eb := in.rawOff(E.End())
+	src := in.src(cf)
+	sort.Slice(uses, func(i, j int) bool { return uses[i].a < uses[j].a })
+	var sb strings.Builder
+	sb.WriteString("(" + in.dir(E.Pos()))
+	last := ea
+	for _, u := range uses {
+		sb.Write(src[last:u.a])
+		pr := pars[u.par]
+		needParens := true
+		switch ex := pr.expr.(type) {
+		case *ast.Ident, *ast.BasicLit:
+			needParens = pr.text != in.nodeText(ex) // &(x) / *(x) built for the receiver
+		case *ast.SelectorExpr:
+			needParens = pr.text != in.nodeText(ex)
+		}
+		if needParens {
+			sb.WriteString("(" + in.dir(pr.expr.Pos()) + pr.text + ")")
+		} else {
+			sb.WriteString(in.dir(pr.expr.Pos()) + pr.text)
+		}
+		last = u.b
+	}
+	sb.Write(src[last:eb])
+	sb.WriteString(")")
+	text := sb.String()
+	// the expression's type must be the declared result type
+	if et := cinfo.TypeOf(E); et == nil || !types.Identical(et, sig.Results().At(0).Type()) {
+		if c.fd.Type.Results == nil || len(c.fd.Type.Results.List) != 1 {
+			return textEdit{}, false
+		}
+		text = "(" + in.calleeText(c, c.fd.Type.Results.List[0].Type) + ")" + text
+	}
+	_, a := in.rawOff(call.Pos())
+	_, b := in.rawOff(call.End())
+	return textEdit{a, b, text + in.dir(call.End())}, true
 }
 
 // enclosingFuncType: the signature of the innermost function (declaration or literal) around the call.
